@@ -354,7 +354,12 @@ func RunReplay(t *testing.T, harnesses map[string]func()) {
 				mu.Unlock()
 			}
 		}()
-		vsched.Start(rf.Schedule)
+		vsched.FSVisible = rf.Params["fsvisible"] != 0
+		if os.Getenv("VERIF_FREERUN") != "" {
+			vsched.Start(nil) // race confirmation on free-running goroutines
+		} else {
+			vsched.Start(rf.Schedule)
+		}
 		defer vsched.Finished()
 		h()
 	}()
